@@ -197,6 +197,24 @@ void harness_lifecycle(void) {
 }
 #endif
 
+#ifdef C20_SETSHA
+/* ---- (4) installing / resetting the compression function ---- */
+static int st_ret, st_calls; static secp256k1_sha256_compression_function st_fn;
+int STUB_secp256k1_selftest_sha256(secp256k1_sha256_compression_function fn_compression) { st_calls++; st_fn = fn_compression; st_ret = nondet_int() & 1; return st_ret; }   /* the self test's verdict on the candidate: arbitrary */
+void harness_set_compression(void) {
+    secp256k1_context c, s0; in_t in = nondet_in(); secp256k1_sha256_compression_function cand = (in.f1 & 1) ? alt_compress : NULL;
+    verif_illegal_count = verif_error_count = 0; uf_gen_calls = 0; uf_sha_calls = 0; uf_sha_cap = 1 << 20;
+    verif_ctx_init(&c); c.ecmult_gen_ctx.built = (in.f2 & 1); c.hash_ctx.fn_sha256_compression = (in.f2 & 2) ? alt_compress : secp256k1_sha256_transform; s0 = c;
+    secp256k1_context_set_sha256_compression(&c, cand);
+    if (!s0.ecmult_gen_ctx.built) __CPROVER_assert(verif_illegal_count == 1 && ctx_same(&c, &s0), "static-context copy: illegal callback, context unchanged");
+    else if (cand == NULL) __CPROVER_assert(verif_illegal_count == 0 && c.hash_ctx.fn_sha256_compression == secp256k1_sha256_transform && st_calls == 0, "NULL resets to the built-in compression function");
+    else if (!st_ret) __CPROVER_assert(st_calls == 1 && st_fn == cand && verif_illegal_count == 1 && ctx_same(&c, &s0), "a candidate that fails the self test is refused through the illegal callback, context unchanged");
+    else __CPROVER_assert(st_calls == 1 && st_fn == cand && verif_illegal_count == 0 && c.hash_ctx.fn_sha256_compression == cand, "a candidate that passes the self test is installed");
+    { secp256k1_context t = c; t.hash_ctx = s0.hash_ctx; __CPROVER_assert(ctx_same(&t, &s0), "nothing but the compression function pointer changes"); }
+    __CPROVER_assert(!(s0.ecmult_gen_ctx.built && cand && st_ret), "witness: installation succeeds");
+}
+#endif
+
 #ifdef C20_BLIND
 /* ---- (2) blinding invariant: one inductive step of secp256k1_ecmult_gen_blind ---- */
 #define W_FIELD_TRANSPARENT
